@@ -315,8 +315,8 @@ func runC20(c *Ctx) {
 		} else {
 			end := u.Bin(binTokens["+"], idx, u.Len(match), types.Typ[types.Int])
 			oob := u.ToBool(u.Lt(u.Len(body), end))
-			cmp := u.Call("strings.EqualFold", types.Typ[types.Bool], u.mk("slice", "", types.Typ[types.String], body, idx, end, nil), match)
-			cmp2 := u.Call("strings.EqualFold", types.Typ[types.Bool], match, u.mk("slice", "", types.Typ[types.String], body, idx, end, nil))
+			cmp := u.Call("strings.EqualFold", types.Typ[types.Bool], u.Slice(body, idx, end, nil, types.Typ[types.String]), match)
+			cmp2 := u.Call("strings.EqualFold", types.Typ[types.Bool], match, u.Slice(body, idx, end, nil, types.Typ[types.String]))
 			want := u.bdd.And(u.bdd.Not(oob), u.ToBool(cmp))
 			want2 := u.bdd.And(u.bdd.Not(oob), u.ToBool(cmp2))
 			got := u.ToBool(res)
